@@ -140,6 +140,18 @@ func PathConds(fn *ssa.Function) (map[*ssa.BasicBlock]DNF, bool) {
 	return c, ok
 }
 
+// pathBlocked: blocks through which path conditions are not propagated (PathCondsAvoiding).
+var pathBlocked map[*ssa.BasicBlock]bool
+
+// PathCondsAvoiding is PathConds restricted to the paths that do not enter any blocked block.
+func PathCondsAvoiding(fn *ssa.Function, blocked map[*ssa.BasicBlock]bool) (map[*ssa.BasicBlock]DNF, bool) {
+	old := pathBlocked
+	pathBlocked = blocked
+	defer func() { pathBlocked = old }()
+	c, _, ok := PathCondsE(fn)
+	return c, ok
+}
+
 // PathCondsE also returns the condition of every forward edge.
 func PathCondsE(fn *ssa.Function) (map[*ssa.BasicBlock]DNF, map[Edge]DNF, bool) {
 	conds := map[*ssa.BasicBlock]DNF{}
@@ -240,6 +252,9 @@ func PathCondsE(fn *ssa.Function) (map[*ssa.BasicBlock]DNF, map[Edge]DNF, bool) 
 				continue // back edge
 			}
 			if _, ok := conds[p]; !ok {
+				continue
+			}
+			if pathBlocked[p] {
 				continue
 			}
 			edge := edgeCond(p, b)
